@@ -4,6 +4,8 @@ PLAN = dict(
     coq_targets=["Props/C01.vo"],
     steps=[
         step("native-x86", "native-x86", "c01", 50, 4000, shards_thorough=12),
+        # known finding label-collision-name-digits-e2e (C14): witnesses built for the current label counter
+        step("label-collision-probe-native", "native-x86", "c01", 2, 4, shards_thorough=1, args=["c14probe"]),
     ],
     rule="every corpus program with a valid main and n random well-typed Fun programs (all constructs, recursion, label/goto, shadowing, many live "
          "variables, large constructors, extreme literals): real pipeline -> printed x86-64 NASM text -> syntax-only transliteration -> GNU as "
